@@ -23,6 +23,8 @@ func main() {
 		os.Exit(cmdSurvey(os.Args[2:]))
 	case "manifest":
 		os.Exit(cmdManifest())
+	case "loopcounts":
+		os.Exit(cmdLoopCounts())
 	case "selftest":
 		os.Exit(cmdSelftest(os.Args[2:]))
 	default:
@@ -138,6 +140,32 @@ func cmdSurvey(args []string) int {
 			}
 		}
 		fmt.Printf("%-60s %3d obl %2d bad  %s\n", shortKey(r.Key), len(r.Obligations), bad, status)
+	}
+	return 0
+}
+
+// cmdLoopCounts prints, for every contract with loop clauses, the number of
+// loops its function has now (used to record "loops N" in the contracts).
+func cmdLoopCounts() int {
+	eng := newEngine(repoDir())
+	if err := eng.load("./..."); err != nil {
+		fmt.Fprintln(os.Stderr, "TOOL-ERROR:", err)
+		return 2
+	}
+	var keys []string
+	for k, f := range eng.contracts.Funcs {
+		if len(f.Loops) > 0 && !f.Extern {
+			keys = append(keys, k)
+		}
+	}
+	sort.Strings(keys)
+	for _, k := range keys {
+		fn := eng.lookupFunc(k)
+		if fn == nil {
+			fmt.Printf("%s ? %s\n", k, eng.contracts.Funcs[k].File)
+			continue
+		}
+		fmt.Printf("%s %d %s recorded=%d\n", k, len(analyzeLoops(fn).ordered), eng.contracts.Funcs[k].File, eng.contracts.Funcs[k].LoopCount)
 	}
 	return 0
 }
